@@ -184,3 +184,39 @@ def stream_simple(name, producer_script, harness):
         for f in fails: f['_mode'] = 'asan'; f['_bin'] = harness; f['_replay_py'] = 'checks_py'; f['_differential'] = 'stream'; f['_args'] = ['--tier', tier]
         return [agg], fails, (1 if fails else 0), ''
     return step
+
+
+def cached_binary(binname, prop, default_prop, mode='asan', structural_props=('C03', 'C04', 'C05')):
+    """Step factory: run a sharded harness binary once per (tree, harness, tier) and let several properties read its verdicts.
+    Failures carry a 'prop' field; crashes and untagged failures belong to default_prop."""
+    def step(tier, ENV, build, run_binary):
+        work = ENV['VERIF_WORK']; cache = os.path.join(work, 'cache'); os.makedirs(cache, exist_ok=True)
+        key = '%s-%s' % (_tree_hash(ENV['VERIF_REPO']), _verif_hash())
+        cf = os.path.join(cache, 'bin-%s-%s-%s.json' % (binname, tier, key))
+        if os.path.exists(cf):
+            d = json.load(open(cf))
+            for r in d['results']: r['cached'] = True
+        else:
+            res, fails, rc, err = run_binary({'mode': mode, 'bin': binname}, tier)
+            d = {'results': res, 'fails': fails}
+            for old in os.listdir(cache):
+                if old.startswith('bin-%s-%s-' % (binname, tier)): os.unlink(os.path.join(cache, old))
+            json.dump(d, open(cf, 'w'))
+        results = []
+        for r in d['results']:
+            r = dict(r); r['sub'] = '%s:%s' % (binname, r.get('sub'))
+            if prop in structural_props and 'segments_on_accepted_mutants' in r.get('counters', {}): r['evaluations'] = r['counters']['segments_on_accepted_mutants']
+            elif 'loads' in r.get('counters', {}): r['enumerated_cases'] = r.get('evaluations'); r['evaluations'] = r['counters']['loads']
+            results.append(r)
+        failures = []
+        for f in d['fails']:
+            fp = f.get('prop') or default_prop
+            if f.get('kind') in ('crash', 'harness_error', 'unparsable_failure', 'harness_died_outside_case'):
+                # a crash while loading belongs to the loader property, a crash while shaping an accepted mutant to C02: the report tells which
+                rep = f.get('report', '')
+                fp = 'C02' if ('gr_make_seg' in rep or 'runGraphite' in rep or 'gr_seg_' in rep or 'gr_slot_' in rep) and default_prop == 'C01' else default_prop
+            if fp != prop: continue
+            f = dict(f); f['_mode'] = mode; f['_bin'] = binname; f['_args'] = []
+            failures.append(f)
+        return results, failures, (1 if failures else 0), ''
+    return step
